@@ -18,11 +18,11 @@ package main
 // computed here.
 
 import (
-	"sync"
 	"fmt"
 	"math/rand"
 	"sort"
 	"strings"
+	"sync"
 
 	"git.metabarcoding.org/obitools/obitools4/obitools4/pkg/obialign"
 	"git.metabarcoding.org/obitools/obitools4/obitools4/pkg/obiapat"
@@ -776,7 +776,7 @@ func recordC10Part(env *Env, rng *rand.Rand, count int, part int) {
 			slen = 6000 + rng.Intn(4000)
 			big--
 		}
-		plant := rng.Intn(6) // 0: at offset 0, 1: at the very end, 2: middle, 3: both ends, 4: two overlapping-ish, 5: none
+		plant := rng.Intn(6)    // 0: at offset 0, 1: at the very end, 2: middle, 3: both ends, 4: two overlapping-ish, 5: none
 		nerr := rng.Intn(e + 2) // sometimes one more than the budget
 		mk := func() []byte {
 			if indel == 1 {
